@@ -218,7 +218,10 @@ def rx_to_z3(p):
         rs = [z3.Range(chr(a), chr(b)) for a, b in ranges]
         if not rs: return z3.Empty(z3.ReSort(z3.StringSort()))
         return rs[0] if len(rs) == 1 else z3.Union(*rs)
-    ESC = {'d': [(48, 57)], 'w': [(48, 57), (65, 90), (95, 95), (97, 122)], 's': [(9, 13), (32, 32)]}
+    # the regex crate's \d \w \s are Unicode-aware: every byte of a non-ASCII char (0x80..0xFF) is admitted as well, an
+    # over-approximation of the match language (sound for "every match contains $"); the negated forms use the ASCII sets
+    ESC_ASCII = {'d': [(48, 57)], 'w': [(48, 57), (65, 90), (95, 95), (97, 122)], 's': [(9, 13), (32, 32)]}
+    ESC = {k: v + [(0x80, 0xFF)] for k, v in ESC_ASCII.items()}
     def atom():
         c = take()
         if c == '(':
@@ -253,7 +256,7 @@ def rx_to_z3(p):
         if c == '\\':
             d = take()
             if d in ESC: return cls_of(ESC[d], False)
-            if d in 'DWS': return cls_of(ESC[d.lower()], True)
+            if d in 'DWS': return cls_of(ESC_ASCII[d.lower()], True)
             if d.isalnum() and d not in 'ntr': raise RxUnsupported('escape \\' + d)
             return z3.Re({'n': '\n', 't': '\t', 'r': '\r'}.get(d, d))
         if c in '^$' : raise RxUnsupported('anchor')
